@@ -135,6 +135,12 @@ func init() {
 	R("verifAssume", func(m *Machine, a []Value) Value { m.ex.assume(m, a[0]); return nil })
 	R("verifAssert", func(m *Machine, a []Value) Value { m.ex.assert(m, a[0], a[1].(string)); return nil })
 	R("verifReach", func(m *Machine, a []Value) Value { m.reached[a[0].(string)] = true; return nil })
+	// verifOutcome(key, outcome): all completed paths with the same key (the harness' inputs) must report the
+	// same outcome, whatever the interleaving / map orders: compared across paths by the explorer
+	R("verifOutcome", func(m *Machine, a []Value) Value {
+		m.outcomes = append(m.outcomes, [2]string{m.concStr(a[0], "outcome key"), m.concStr(a[1], "outcome")})
+		return nil
+	})
 	R("verifKnown", func(m *Machine, a []Value) Value {
 		if b, ok := a[1].(bool); ok && !b {
 			return nil
